@@ -327,10 +327,55 @@ def main(argv):
             if want and want not in ("OUT", "NOTHING"):
                 seq_lines.append("srv.parse data=" + hx(sent))
                 seq_metas.append((case, want))
+    # ---- the same through the wrapper classes, on every path by which they reach the inner client: a fresh HashClient, one whose server is in
+    #      its retry window after a failure (a different branch of the failover code invokes the inner client), a pooled client after a failure ----
+    import pymemcache.client.hash as hash_mod
+    from pymemcache.client.base import PooledClient
+    from pymemcache.client.hash import HashClient
+    wclock = [100.0]
+    real_ht = hash_mod.time
+    hash_mod.time = type("T", (), {"time": staticmethod(lambda: wclock[0])})
+    wcalls = [{"op": "set", "k": "k", "v": b"v", "e": 100, "nr": False, "fl": 7}, {"op": "add", "k": "k", "v": b"v", "e": -1, "nr": True}, {"op": "replace", "k": "k", "v": b"v", "e": 5, "nr": False},
+              {"op": "append", "k": "k", "v": b"v", "nr": False}, {"op": "prepend", "k": "k", "v": b"v", "nr": None}, {"op": "cas", "k": "k", "v": b"v", "cas": b"12", "e": 9, "nr": False, "fl": 3},
+              {"op": "gat", "k": "k", "e": 300}, {"op": "gats", "k": "k", "e": 30}, {"op": "touch", "k": "k", "e": 77, "nr": False}, {"op": "incr", "k": "k", "d": 5, "nr": False},
+              {"op": "decr", "k": "k", "d": 2, "nr": True}, {"op": "delete", "k": "k", "nr": False}, {"op": "get", "k": "k"}, {"op": "gets", "k": "k"}]
+    try:
+        for wkind in ("Hash", "Hash-retry-window", "HashPooled-retry-window", "Pooled-after-failure"):
+            for (au, utf8, dnr, pfx) in [(False, False, True, b""), (False, False, False, b"ns:")]:
+                for c in wcalls:
+                    srv = RefServer()
+                    world = World(server=lambda conn, data: [srv.feed(conn.id, data)])
+                    sm_ = FakeSocketModule(world)
+                    kwc = dict(socket_module=sm_, allow_unicode_keys=au, default_noreply=dnr, key_prefix=pfx)
+                    if wkind == "Pooled-after-failure":
+                        obj = PooledClient(("h", 1), max_pool_size=1, **kwc)
+                    else:
+                        obj = HashClient([("h", 1)], retry_attempts=2, retry_timeout=1, dead_timeout=60, use_pooling=wkind.startswith("HashPooled"), **kwc)
+                    if wkind != "Hash":
+                        world.refuse_addrs = {("h", 1)}
+                        world.tag = "pre"
+                        try:
+                            obj.get("warm")
+                        except Exception:
+                            pass
+                        world.refuse_addrs = set()
+                        wclock[0] += 5            # past retry_timeout: the next call is the retry
+                    world.tag = "call"
+                    r = run_call(obj, c)
+                    sent = b"".join(d for cn in world.conns for t, d in cn.sent if t == "call")
+                    want = intent(c, au, utf8, dnr, pfx)
+                    case = {"class": wkind, "cfg": {"default_noreply": dnr, "prefix": hx(pfx)}, "call": repr(c), "result": r, "sent": hx(sent)}
+                    ctx.case(("wrapper", wkind, dnr, pfx, repr(c)))
+                    ctx.count("wrapper-paths")
+                    if want and want not in ("OUT", "NOTHING"):
+                        seq_lines.append("srv.parse data=" + hx(sent))
+                        seq_metas.append((case, want))
+    finally:
+        hash_mod.time = real_ht
     if ctx.lean.build_ok:
         for (case, want), o in zip(seq_metas, ctx.driver.batch(seq_lines)):
             if o != "ok " + want:
-                ctx.violation("in a sequence of calls on one client, the bytes sent are not the intended command (same prefixed key)", dict(case, parsed=o[:200], intended=want[:200]),
+                ctx.violation("in a sequence of calls on one object, the bytes sent are not the intended command (key, flags, expiry, noreply marker)", dict(case, parsed=o[:200], intended=want[:200]),
                               tags=["sequence"])
     if ctx.lean.build_ok:
         outs = iter(ctx.driver.batch(parse_lines + model_lines))
